@@ -469,3 +469,16 @@ func (w *Wire) Finish() ([]byte, bool) {
 	}
 	return w.Recv(), ok
 }
+
+// DialConn opens a connection for use by a go-smtp Client: the returned
+// net.Conn is the client end (wrapped in a TLS client when the rig serves
+// implicit TLS; the handshake happens on first use).
+func (r *Rig) DialConn() (net.Conn, *Wire) {
+	c, s := r.L.Dial()
+	w := &Wire{R: r, C: c, S: s}
+	r.B.SetWireMark(func() int64 { return s.out.written })
+	if r.Cfg.TLS == "implicit" {
+		return tls.Client(c, ClientTLS()), w
+	}
+	return c, w
+}
